@@ -21,9 +21,13 @@ The defaults array and the name tables are abstracted to their lengths
 what was appended; the values of the appended elements are the unit's own
 `values` list (identity of the symbolic sequence).
 
+SynthDef._args_to_controls (signature -> one control name per parameter) is
+under contract at the end of this module.
+
 Not under contract (bounded driver C04 only): SynthDef._build_controls (nested
-function with nonlocal state, reshape_like), _args_to_controls, the writer.
+function with nonlocal state, reshape_like), the writer.
 """
+import ast
 import z3
 from vf.pyvc.spec import contract, lemma
 from vf.pyvc.values import *
@@ -312,3 +316,209 @@ lemma('names-of-a-rate-group-tile-the-slots-of-its-control-unit', props=('C04',)
       vcs=[('three-names-then-one-unit', _layout)],
       note='instantiated for three names per group (the arithmetic is the same for any number); '
            'that _build_controls performs exactly these steps is checked by the bounded C04 driver')
+
+
+# ---- SynthDef._args_to_controls: signature -> one control name per parameter ("signature -> ControlName records") ----
+# With  skip = skip_args,  P(j) = the j-th parameter of the function,  k = 0, 1, ... the controls in order:
+#   * the metadata defaults are asked for with ALIGNED lists: names[k] = P(skip+k).name and
+#     values[k] = valid-default(P(skip+k)), both of length  #parameters - skip;
+#   * pass k of the main loop enters exactly ONE control name, through the _add_* method of its rate group:
+#       name   P(skip+k).name
+#       value  the metadata-adjusted default number k
+#       group  the rates entry k if it is a rate name (it overrides), else the annotation of P(skip+k) if it has
+#              one, else control rate
+#       lag    (control rate only) the rates entry k (missing -> 0, None -> 0.0, 'kr' -> 0.0)
+# inspect.* are ghost objects; _get_valid_arg_values and _apply_metadata_specs are ghost calls (elementwise /
+# positionwise uninterpreted results); the three list comprehensions are executed by the engine as maps.
+from vf.pyvc.spec import Loop as _ALoop
+A_ = VV.Any
+P_NAME = z3.Function('param_name', z3.IntSort(), A_)
+P_KIND = z3.Function('param_kind', z3.IntSort(), A_)
+P_DEFAULT = z3.Function('param_default', z3.IntSort(), A_)
+P_ANNOT = z3.Function('param_annotation', z3.IntSort(), A_)
+P_VALID = z3.Function('valid_default_of_param', z3.IntSort(), A_)
+META = z3.Function('metadata_adjusted_default', z3.IntSort(), A_)
+RATE_IN = z3.Function('rates_entry', z3.IntSort(), A_)
+IS_PORK = z3.Function('is_positional_or_keyword', A_, z3.BoolSort())
+IS_EMPTY = z3.Function('is_signature_empty', A_, z3.BoolSort())
+NPAR = z3.Int('params.len')
+NRATES = z3.Int('rates.len')
+
+
+def param_ref(i):
+    tag = str(z3.simplify(i)).replace(' ', '')
+    return V('ref', cls='Param', oid='param[%s]' % tag, extra={'index': i})
+
+
+def a2c_getattr(eng, obj, name, st, node):
+    if obj.k == 'module' and obj.py == 'ext:inspect':
+        if name == 'isfunction':
+            return [(st, V('func', py=('spec', lambda eng, a, kw, st, node: [(st, vbool(True))])))]
+        if name == 'signature':
+            def sig(eng, a, kw, st, node):
+                st.trace.append(('signature-of', a[0]))
+                return [(st, V('obj', oid='the-signature'))]
+            return [(st, V('func', py=('spec', sig)))]
+        if name in ('Parameter', 'Signature'):
+            return [(st, V('obj', oid='inspect.' + name))]
+    if obj.k == 'obj' and obj.oid == 'inspect.Parameter' and name == 'POSITIONAL_OR_KEYWORD':
+        return [(st, V('obj', oid='PORK'))]
+    if obj.k == 'obj' and obj.oid == 'inspect.Signature' and name == 'empty':
+        return [(st, V('obj', oid='EMPTY'))]
+    if obj.k == 'obj' and obj.oid == 'the-signature' and name == 'parameters':
+        return [(st, V('obj', oid='the-parameters'))]
+    if obj.k == 'obj' and obj.oid == 'the-parameters' and name == 'values':
+        def vals(eng, a, kw, st, node):
+            return [(st, V('seq', extra={'len': NPAR, 'facts': [NPAR >= 0],
+                                         'get': (lambda eng_, i, st_: param_ref(i))}))]
+        return [(st, V('func', py=('spec', vals)))]
+    if obj.k == 'ref' and obj.cls == 'Param':
+        f = {'name': P_NAME, 'kind': P_KIND, 'default': P_DEFAULT, 'annotation': P_ANNOT}.get(name)
+        if f is not None:
+            return [(st, V('any', f(obj.extra['index'])))]
+    return None
+
+
+def a2c_compare(eng, op, a, b, st, node):
+    for x, y in ((a, b), (b, a)):
+        if x.k == 'any' and y.k == 'obj' and y.oid in ('PORK', 'EMPTY') and isinstance(op, (ast.Eq, ast.NotEq)):
+            r = (IS_PORK if y.oid == 'PORK' else IS_EMPTY)(x.z)
+            return z3.Not(r) if isinstance(op, ast.NotEq) else r
+    return None
+
+
+def a2c_builtin_first(eng, name, args, kwargs, st, node):
+    if name == 'any':
+        return [(st, vbool(z3.Bool('tuple_default_holds_a_container!%d' % next(eng.counter))))]
+    return None
+
+
+def a2c_listcomp(eng, e, it, st, node):
+    # (isinstance(v, Container) for v in p.default): only its truth under any() matters (see builtin_first)
+    if isinstance(e, ast.GeneratorExp) and it.k in ('any', 'dyn'):
+        return [(st, V('obj', oid='generator-over-a-default'))]
+    return None
+
+
+def valid_pol(eng, selfv, args, kwargs, st, node):
+    src = args[0]
+    if src.k != 'seq' or not src.extra.get('get'):
+        raise Unsupported(node, '_get_valid_arg_values of %r' % (src,))
+    g = src.extra['get']
+
+    def get(eng_, i, st_):
+        p = g(eng_, i, st_)
+        if p.k != 'ref' or p.cls != 'Param':
+            raise Unsupported(node, 'valid value of a non-parameter')
+        return V('any', P_VALID(p.extra['index']))
+    return [(st, V('seq', extra={'len': src.extra['len'], 'get': get}))]
+
+
+def meta_pol(eng, selfv, args, kwargs, st, node):
+    names, values = args[0], args[1]
+    if names.k != 'seq' or values.k != 'seq':
+        raise Unsupported(node, 'metadata arguments %r %r' % (names, values))
+    k = z3.Int('meta.k!%d' % next(eng.counter))
+    probe = st.fork()
+    probe.pc.extend([k >= 0, k < names.extra['len'], k < values.extra['len']])
+    nk, vk = names.extra['get'](eng, k, probe), values.extra['get'](eng, k, probe)
+    st.trace.append(('metadata', names.extra['len'], values.extra['len'], k, nk, vk, probe.pc[len(st.pc):]))
+    return [(st, V('seq', extra={'len': values.extra['len'], 'get': (lambda eng_, i, st_: V('any', META(i)))}))]
+
+
+def add_pol(group):
+    def pol(eng, selfv, args, kwargs, st, node):
+        st.trace.append(('add-control', group, tuple(args)))
+        return [(st, NONE)]
+    return pol
+
+
+def a2c_since(trace, ordinal):
+    idx = -1
+    for i, e in enumerate(trace):
+        if e[0] == 'loop-head' and e[1] == ordinal:
+            idx = i
+    return trace[idx + 1:] if idx >= 0 else None
+
+
+def as_any(eng, v):
+    facts = []
+    z = eng.box_any(v, facts, None)
+    return z, facts
+
+
+def a2c_main(c, L):
+    eng = c._eng
+    ev = a2c_since(c.trace, 3)
+    if not ev:
+        return z3.BoolVal(True)
+    adds = [e for e in ev if e[0] == 'add-control']
+    if len(adds) != 1:
+        return z3.BoolVal(False)
+    group, args = adds[0][1], adds[0][2]
+    k = L.i - 1
+    skip = c.skip_args
+    if len(args) != (3 if group == 'kr' else 2) or args[0].k != 'any' or args[1].k != 'any':
+        return z3.BoolVal(False)
+    entry = z3.If(k < NRATES, RATE_IN(k), eng.box_any(vint(0), [], None))
+    is_none = VV.tag_of(entry) == TAGS['none']
+    ann = P_ANNOT(skip + k)
+    has_ann = z3.Not(IS_EMPTY(ann))
+
+    def named(z, r):
+        return z3.And(VV.tag_of(z) == TAGS['str'], eng.str_is(r)(z))
+    over = {r: z3.And(z3.Not(is_none), named(entry, r)) for r in ('ir', 'tr', 'ar', 'kr')}
+    overridden = z3.Or(*over.values())
+    want = {r: z3.Or(over[r], z3.And(z3.Not(overridden), has_ann, named(ann, r))) for r in ('ir', 'tr', 'ar')}
+    expected_group = z3.If(want['ir'], 0, z3.If(want['tr'], 1, z3.If(want['ar'], 2, 3)))
+    got_group = {'ir': 0, 'tr': 1, 'ar': 2, 'kr': 3}[group]
+    clauses = [args[0].z == P_NAME(skip + k), args[1].z == META(k), expected_group == got_group]
+    if group == 'kr':
+        lag = args[2]
+        facts = []
+        lz = eng.box_any(lag, facts, None)
+        zero = z3.And(VV.tag_of(lz) == TAGS['float'], VV.any_real(lz) == 0)
+        clauses.append(z3.Implies(z3.And(*facts) if facts else z3.BoolVal(True),
+                                  z3.If(z3.Or(is_none, over['kr']), zero,
+                                        z3.If(k < NRATES, lz == entry,
+                                              z3.And(VV.tag_of(lz) == TAGS['int'], VV.any_int(lz) == 0)))))
+    return z3.And(*clauses)
+
+
+def a2c_post(c):
+    metas = [e for e in c.trace if e[0] == 'metadata']
+    if not metas:
+        return NPAR == 0                                   # a function without parameters: nothing to do
+    if len(metas) != 1:
+        return z3.BoolVal(False)
+    _, nlen, vlen, k, nk, vk, facts = metas[0]
+    skip = c.skip_args
+    if nk.k != 'any' or vk.k != 'any':
+        return z3.BoolVal(False)
+    return z3.And(nlen == vlen,
+                  z3.Implies(z3.And(*facts), z3.And(nk.z == P_NAME(skip + k), vk.z == P_VALID(skip + k))))
+
+
+def rates_kind(eng, name):
+    return V('seq', extra={'len': NRATES, 'facts': [NRATES >= 0], 'get': (lambda eng_, i, st_: V('any', RATE_IN(i)))})
+
+
+TRUE_INV = lambda c, L: z3.BoolVal(True)
+contract(FS, 'SynthDef._args_to_controls', props=('C04',),
+         params={'self': 'self', 'func': 'obj', 'rates': rates_kind, 'skip_args': 'int'},
+         requires=lambda c: z3.And(c.skip_args >= 0, c.skip_args <= NPAR),
+         ensures=[('metadata-defaults-asked-with-aligned-names-and-values', a2c_post)],
+         raises={'ValueError': None},
+         loops={0: _ALoop(inv=TRUE_INV, kinds={'p': (lambda eng, n: V('obj', oid='havoc'))}),
+                1: _ALoop(inv=TRUE_INV, kinds={'p': (lambda eng, n: V('obj', oid='havoc'))}),
+                2: _ALoop(inv=TRUE_INV, kinds={'a': 'any'}),
+                3: _ALoop(inv=a2c_main, kinds={'i': 'int', 'name': 'any', 'value': 'any', 'annot': 'any',
+                                                'lag': 'any', 'overridden': 'bool'})},
+         fields={'SynthDef': SD, 'Param': {}},
+         hooks={'getattr': a2c_getattr, 'compare': a2c_compare, 'builtin_first': a2c_builtin_first,
+                'listcomp': a2c_listcomp},
+         policies={'SynthDef._get_valid_arg_values': valid_pol, 'SynthDef._apply_metadata_specs': meta_pol,
+                   'SynthDef._add_ir': add_pol('ir'), 'SynthDef._add_tr': add_pol('tr'),
+                   'SynthDef._add_ar': add_pol('ar'), 'SynthDef._add_kr': add_pol('kr')},
+         class_modules={'SynthDef': FS, 'Param': FS}, native=False,
+         note='skip_args within the number of parameters; a function object with an inspectable signature')
